@@ -30,7 +30,8 @@ THRESH = [0.5, 0.3, "auto", "extrema", "mean", "otsu"]
 MINR = [0.0, 0.7, 3.0]
 IW = [None, 0.0, 0.7]
 MODES = [0, 1, 2, 3]
-RARGS = [{}, {"vmin": None, "vmax": None}, {"vmin": None, "vmax": None, "adjust_values": True}]
+_LSQ = {"max_nfev": 300}  # one caller-owned options dict, deliberately shared by every request that uses it
+RARGS = [{}, {"vmin": None, "vmax": None}, {"vmin": None, "vmax": None, "adjust_values": True, "least_squares_params": _LSQ}]
 
 
 def cart(shape, mask, dx=None, origin=None):
